@@ -12,6 +12,18 @@ def stepBoth (st : St) (op : Op) : Option (St × StepRes) :=
   let (ps, r2) := st.ps.step st.basis op
   if r1 = r2 then some ({ st with hs := hs, ps := ps }, r1) else none
 
+/-- the slice headers of an object, as far as they do not depend on `append`'s growth policy (cf. `hdrStr` in ops_alloc.go).
+Height/Stacks are the object's own arrays by construction of the model (`h=own s=own`): the Go side checks that claim. -/
+def hdrStr (o : PObj) : String :=
+  let wOwn := o.wg.arr == o.own
+  let w := if wOwn then s!"w=own wlen={o.wg.len} wcap={o.wg.cap}" else s!"w=ext wlen={o.wg.len}"
+  let b :=
+    if !wOwn then s!" b=? len={o.bg.len}"
+    else if o.bg.cap == 0 then " b=empty"
+    else if o.bg.arr == o.wg.arr then s!" b=inw off={o.bg.off - o.wg.off} len={o.bg.len} cap={o.bg.cap}"
+    else s!" b=ext len={o.bg.len}"
+  w ++ b ++ " h=own s=own"
+
 def setSlot (st : St) (k : Nat) (v : Option Nat) : St := { st with slots := st.slots.setIfInBounds k v }
 
 def handleAlloc : Handler := fun st op args =>
@@ -87,6 +99,20 @@ def handleAlloc : Handler := fun st op args =>
         else some (st, "dead")
       | none => some (st, "dead")
     | none => some (st, "bad-op")
+  | "h.hdr", [slot] =>
+    match slot.toNat? with
+    | some k =>
+      match st.slots.getD k none with
+      | some i =>
+        if i ∈ st.hs.live then
+          match st.hs.heap.objs[i]? with
+          | some o => some (st, hdrStr o)
+          | none => some (st, "bad-slot")
+        else some (st, "dead")
+      | none => some (st, "dead")
+    | none => some (st, "bad-op")
+  -- real storage windows of distinct objects are disjoint: what `Separated` (C09.heap_refines_pure) says of the model
+  | "h.sep", [] => some (st, "sep=1")
   | "p.obs", [slot] =>
     match slot.toNat? with
     | some k =>
